@@ -83,6 +83,16 @@ type fakeT struct{ testing.TB }
 func (fakeT) Fatalf(format string, args ...interface{}) { panic(fmt.Sprintf(format, args...)) }
 func (fakeT) Fatal(args ...interface{})                 { panic(fmt.Sprint(args...)) }
 
+// gbTag is what the server accepted for an establishment answers with: the side it runs on (P for host-dials-plugin,
+// H for plugin-dials-host) and the id.
+func gbSide(e gbEst) string {
+	if e.Dir == "h2p" {
+		return "P"
+	}
+	return "H"
+}
+func gbTag(e gbEst) string { return gbSide(e) + strconv.Itoa(int(e.ID)) }
+
 func runGBCase(c gbCase, bin, tmp string, t *testing.T) map[string]interface{} {
 	var goroutinesBefore map[string]string
 	if c.LeakCheck {
@@ -275,7 +285,7 @@ func runGBCase(c gbCase, bin, tmp string, t *testing.T) map[string]interface{} {
 	ms := func() int64 { return time.Since(t0).Milliseconds() }
 	obs := make([]gbEstObs, len(c.Ests))
 	doAccept := func(e gbEst) {
-		tag := strconv.Itoa(int(e.ID))
+		tag := gbTag(e)
 		if e.Dir == "h2p" {
 			stub.Do(vp.Cmd{Op: "serve", ID: e.ID, S: tag})
 		} else {
@@ -317,8 +327,13 @@ func runGBCase(c gbCase, bin, tmp string, t *testing.T) map[string]interface{} {
 				return
 			}
 			o.DialOK = true
-			if n, err := strconv.Atoi(tag); err == nil {
-				o.ServedBy = n
+			// the answering server names the id it was accepted on and the side it runs on
+			if strings.HasPrefix(tag, gbSide(e)) {
+				if n, err := strconv.Atoi(tag[1:]); err == nil {
+					o.ServedBy = n
+				}
+			} else if len(tag) > 1 {
+				o.ServedBy = -2 // a server of the other side (one number used as an id in both directions)
 			}
 			rec.Log("ret.dial", dialSide, int64(e.ID), 0, map[string]interface{}{"dir": e.Dir, "ok": true, "served_by": o.ServedBy, "timeout": false})
 		}
@@ -329,7 +344,8 @@ func runGBCase(c gbCase, bin, tmp string, t *testing.T) map[string]interface{} {
 		}
 		gap := time.Duration(e.GapMs) * time.Millisecond
 		switch {
-		case e.NoPeer == "dial_only":
+		case e.NoPeer == "dial_only", e.NoPeer == "dial_again":
+			// (dial_again: the server accepted for this id by an earlier establishment is still serving)
 			wg.Add(1)
 			dial()
 		case e.NoPeer == "accept_only":
@@ -385,7 +401,7 @@ func runGBCase(c gbCase, bin, tmp string, t *testing.T) map[string]interface{} {
 				r, err = stub.Do(vp.Cmd{Op: "callkept", ID: e.ID})
 				tag = r.S
 			}
-			obs[i].KeptOK = err == nil && tag == strconv.Itoa(int(e.ID))
+			obs[i].KeptOK = err == nil && tag == gbTag(e)
 		}
 	}
 	out["ests"] = obs
